@@ -529,6 +529,44 @@ func c03Verifier(c *Ctx, r *Report, fn, crc *ssa.Function, control bool) map[str
 				continue
 			}
 		}
+		if !guarded && !rejecting && len(rs.state) > 1 && nres > 1 {
+			// a single exit reached by several paths: each path is either under the equality or a rejection
+			allInf := func(d DNF) bool {
+				for _, cj := range d {
+					if !infeasible(cj) {
+						return false
+					}
+				}
+				return true
+			}
+			nG, nR, bad, badCRC := 0, 0, false, false
+			for _, cj := range rs.state {
+				one := DNF{cj.with(an.global...)}
+				if infeasible(one[0]) {
+					continue
+				}
+				switch {
+				case guardedBy(one):
+					nG++
+				case allInf(dnfAnd(one, errNil.dnf(false))) && allInf(dnfAnd(one, valNil.dnf(true))):
+					nR++
+					if !allInf(dnfAnd(one, DNF{Conj{eq, atomEQ(eqs[0].x, data.ln.addc(-2)), atomGE(data.ln, affConst(4))}})) {
+						badCRC = true
+					}
+				default:
+					bad = true
+				}
+			}
+			if !bad {
+				if nG > 0 {
+					report(true, "return is reached only when the little-endian trailer equals CRC16(data[0:len-2])", "", "", pos)
+				}
+				if nR > 0 {
+					report(!badCRC, "rejecting return is unreachable for a frame whose trailer matches its CRC", truncate(rs.state.String(), 300), "rejects-good-crc", pos)
+				}
+				continue
+			}
+		}
 		switch {
 		case guarded:
 			report(true, "return is reached only when the little-endian trailer equals CRC16(data[0:len-2])", "", "", pos)
